@@ -316,8 +316,8 @@ def correspondence(ctx):
     for i in bad[:20]:
         kind, inp, out = meta[i]
         disagreements.append({'what': 'model and implementation differ (%s)' % kind, 'input': inp, 'impl': out, 'coq_case': exprs[i][:1200]})
-    flags_impl = [isinstance(conv['ti'].sql2py(conv['ti'].py2sql(dt.time(1, 2, 3))), str)]
-    dist['flags(time_reloads_as_str)'] = {'model': flags_model, 'implementation': flags_impl}
+    flags_impl = [isinstance(conv['ti'].sql2py(conv['ti'].py2sql(dt.time(1, 2, 3))), str), len(conv['da'].py2sql(dt.date(999, 12, 31))) == 10]
+    dist['flags(time_reloads_as_str, date_text_pads_year)'] = {'model': flags_model, 'implementation': flags_impl}
     if flags_model != flags_impl:
         disagreements.append({'what': 'defect flag computed from the translated model differs from the real implementation', 'input': 'C07_flags', 'model': flags_model, 'impl': flags_impl})
     return Corr(cases=len(exprs), nontrivial=len(nontrivial), disagreements=disagreements,
